@@ -14,5 +14,5 @@ CONSTANTS
   Bug = ""
   Hist = "off"
   UseFast = TRUE
-INVARIANTS Refines SoloProgress
+INVARIANTS Refines SoloProgress SoloBound
 CHECK_DEADLOCK FALSE
